@@ -20,6 +20,7 @@ import scan_streams
 from props import C15
 
 ID = "C03"
+SHRINKABLE = True     # replay() re-evaluates the oracle from the input alone
 TRUSTED = [
     "correspondence harness (harness/props/C03.py, scan_real.py, scan_streams.py)",
     "translator/patterns.py (shipped header patterns -> Gen/Languages.lean)",
